@@ -162,6 +162,12 @@ def _scalar_binop(it, op, a, b):
 
 
 def binop(it, op, a, b):
+    if isinstance(a, Stale) or isinstance(b, Stale):
+        # arithmetic on state left behind by earlier calls: the result depends on call history (failed frame obligation); the value
+        # stays "stale" so that whatever is built from it is recognised as such
+        st = a if isinstance(a, Stale) else b
+        it.oblige(f"no-read-of-stale-state.{st.label}", sp.false, kind="frame")
+        return Stale(st.label, owner=st.owner)
     if isinstance(a, SymObj) or isinstance(b, SymObj):
         names = {ast.Add: "add", ast.Sub: "sub", ast.Mult: "mul", ast.Div: "truediv", ast.MatMult: "matmul"}
         nm = names.get(type(op))
@@ -220,6 +226,8 @@ def unop(it, op, v):
 
 def _cmp_scalar(it, op, a, b):
     a, b = norm(a), norm(b)
+    if isinstance(op, (ast.Is, ast.IsNot)) and (isinstance(a, Stale) or isinstance(b, Stale)):
+        return a if isinstance(a, Stale) else b      # `x is None` on stale state: its truth value is a failed frame obligation
     if isinstance(op, (ast.Is, ast.IsNot)):
         same = a is b or (isinstance(a, (bool, int, str, EnumVal)) and type(a) is type(b) and a == b)
         return same if isinstance(op, ast.Is) else not same
